@@ -486,9 +486,82 @@ class ControllerAdapter(Adapter):
                 'posterior_names': [n for n, k in zip(names, keep) if k]}
 
 
+class SbmlLogLikelihoodAdapter(Adapter):
+    """LogLikelihood over the dosed library PK model: any subset of its
+    parameters may be fixed - in particular ALL mechanistic ones (known
+    kinetics, only the noise is inferred)"""
+    cls = 'LogLikelihood(sbml)'
+    rtol = 1e-6
+
+    def __init__(self, rng):
+        self.direct = bool(rng.integers(2))
+        self.times = np.sort(rng.choice(GL.POOL[1:], size=4, replace=False))
+        self.obs = rng.uniform(0.2, 2.0, size=4)
+        self.em = sorted(D.ERROR_MODELS)[int(rng.integers(4))]
+        self.mode = ['fresh', 's1_first'][int(rng.integers(2))]
+        self.cls = 'LogLikelihood(sbml)/' + self.mode
+
+    def n_fixed(self, obj):
+        return None
+
+    def _ll(self):
+        from chi.library import ModelLibrary
+        m = ModelLibrary().one_compartment_pk_model()
+        m.set_administration('central', direct=self.direct)
+        m.set_dosing_regimen(2.0, start=0.1, duration=0.3, period=1.5, num=2)
+        return chi.LogLikelihood(m, getattr(chi, self.em)(), self.obs,
+                                 self.times)
+
+    def make(self):
+        a, b = self._ll(), self._ll()
+        self.full_names = b.get_parameter_names()
+        self.n_mech = len(self.full_names) - D.ERROR_MODELS[self.em][0]
+        if self.mode == 's1_first':
+            a.evaluateS1(self.point(np.random.default_rng(0)))
+        return a, b
+
+    def zero_names(self):
+        return []
+
+    def point(self, rng):
+        return np.concatenate([
+            rng.uniform(0.5, 1.5, self.n_mech),
+            rng.uniform(0.2, 0.5, len(self.full_names) - self.n_mech)])
+
+    def evals(self, obj, x, mask):
+        s, g = obj.evaluateS1(x)
+        return {'value': obj(x), 'pointwise': obj.compute_pointwise_ll(x),
+                's1_score': s, 'gradient': np.asarray(g, dtype=float)}
+
+    def evals_twin(self, twin, xf, mask):
+        out = self.evals(twin, xf, None)
+        out['gradient'] = out['gradient'][mask]
+        return out
+
+
+def sbml_all_mechanistic_case(ctx, rng, idx):
+    """histories that end with every mechanistic parameter fixed"""
+    ad = SbmlLogLikelihoodAdapter(rng)
+    ad.make()
+    full = list(ad.full_names)
+    x = ad.point(rng)
+    mech = full[:ad.n_mech]
+    order = [mech[i] for i in rng.permutation(len(mech))]
+    k = int(rng.integers(1, len(mech) + 1))
+    hist = [{n: float(x[full.index(n)]) for n in order[:k]}]
+    if k < len(mech):
+        hist.append({n: float(x[full.index(n)]) for n in order[k:]})
+    if rng.random() < 0.5:
+        hist.append({order[0]: None})
+        hist.append({order[0]: float(x[full.index(order[0])])})
+    ctx.case((ad.cls, 'all_mechanistic', k, len(hist)), True,
+             sample={'class': ad.cls, 'history': hist})
+    run_history(ctx, rng, ad, hist, 'all_mechanistic')
+
+
 ADAPTERS = [ErrorModelAdapter, ToyMechAdapter, SbmlMechAdapter, PopAdapter,
             LogLikelihoodAdapter, PredictiveAdapter, PopPredictiveAdapter,
-            ControllerAdapter]
+            ControllerAdapter, SbmlLogLikelihoodAdapter]
 
 
 # ---------------------------------------------------------------- engine
@@ -803,10 +876,87 @@ def sibling_case(ctx, rng, idx):
             return
 
 
+def controller_population_case(ctx, rng, idx):
+    """posteriors and predictive models a controller handed out keep their
+    own fixed set: later fix_parameters calls on the controller (or on
+    another derived object) do not change them"""
+    n_ids = int(rng.integers(2, 4))
+    rows = []
+    for i in range(n_ids):
+        for tt in np.sort(rng.choice(GL.POOL[1:], size=3, replace=False)):
+            rows.append({'ID': i + 1, 'Time': float(tt),
+                         'Observable': 'Out 1',
+                         'Value': float(rng.uniform(1, 4))})
+    data = pd.DataFrame(rows)
+    mutate = ['controller_refix', 'controller_fix_other',
+              'predictive_model_fix'][idx % 3]
+    feats = {'route': 'controller_population', 'n_ids': n_ids,
+             'later_call': mutate}
+    ctx.case(('controller_population', n_ids, mutate), True, sample=feats)
+
+    def build():
+        c = chi.ProblemModellingController(
+            toys.ToyMulti(1), chi.GaussianErrorModel())
+        c.set_data(data.copy())
+        c.set_population_model(chi.ComposedPopulationModel([
+            chi.GaussianModel(), chi.PooledModel(),
+            chi.LogNormalModel(n_dim=2)]))
+        c.fix_parameters({'Pooled k': 0.3})
+        n = c.get_n_parameters()
+        c.set_log_prior(pints.ComposedLogPrior(*[
+            pints.GaussianLogPrior(0.5, 3) for _ in range(n)]))
+        return c, c.get_log_posterior(), c.get_predictive_model()
+
+    def snapshot(post, pm):
+        n = post.n_parameters()
+        nt = post.n_parameters(exclude_bottom_level=True)
+        x = np.concatenate([np.tile([2.0, 0.4, 0.3], n_ids),
+                            [2.0, 0.5, -1.0, -1.2, 0.4, 0.3]])[:n] \
+            if n == 3 * n_ids + 6 else np.full(n, 0.5)
+        s_, g_ = post.evaluateS1(x)
+        return {'n_parameters': n, 'names': list(post.get_parameter_names()),
+                'value': post(x), 's1_score': s_,
+                'gradient': np.asarray(g_, dtype=float),
+                'predictive_names': list(pm.get_parameter_names()),
+                'predictive_sample': np.asarray(pm.sample(
+                    np.array([2.0, 0.5, -1.0, -1.2, 0.4, 0.3])[:nt]
+                    if nt == 6 else np.full(pm.n_parameters(), 0.5),
+                    TIMES, n_samples=2, seed=4, return_df=False))}
+    try:
+        c, post, pm = build()
+        before = snapshot(post, pm)
+        if mutate == 'controller_refix':
+            c.fix_parameters({'Pooled k': 0.9})
+        elif mutate == 'controller_fix_other':
+            c.fix_parameters({'Std. a1': 0.7})
+        else:
+            c.get_predictive_model().fix_parameters({'Std. a1': 0.7})
+        after = snapshot(post, pm)
+    except Exception as e:      # noqa
+        ctx.violation_exc('derived_object_raises_after_later_fix', e,
+                          {'case': feats}, feats)
+        return
+    ctx.count('sibling_comparisons')
+    for key in before:
+        a, b = after[key], before[key]
+        same = a == b if not isinstance(b, np.ndarray) else (
+            np.shape(a) == np.shape(b) and np.allclose(
+                a, b, rtol=1e-12, atol=0, equal_nan=True))
+        if not same:
+            ctx.violation('depends_only_on_own_fixed_set',
+                          'derived_object_changed:%s:%s' % (mutate, key),
+                          {'what': key, 'before': b, 'after': a}, feats)
+            return
+
+
 FAMILIES = [
     Family('random', random_case, quick=1600, thorough=30000),
     Family('exhaustive', exhaustive_case,
            quick=len(HISTS) * len(ADAPTERS),
            thorough=len(HISTS) * len(ADAPTERS) * 4),
     Family('siblings', sibling_case, quick=240, thorough=2400),
+    Family('all_mechanistic', sbml_all_mechanistic_case, quick=48,
+           thorough=480),
+    Family('controller_population', controller_population_case, quick=60,
+           thorough=600),
 ]
